@@ -86,7 +86,7 @@ def exhaustive_type_table(eng):
     # limit is the decoder's)
     grp = [d for d in eng.dicts["g"].live() if d["ty"] == "grp" and d["vendor"] is None][0]
     leafdef = [d for d in eng.dicts["g"].live() if d["ty"] == "u32" and d["vendor"] is None and 1000 <= d["code"] < 1100][0]
-    for depth in list(range(1, 20, 3)) + list(range(28, (eng.lim or 32) + 3)):
+    for depth in list(range(1, 20, 3)) + list(range(28, min(eng.lim or 32, 200) + 3)):
         e = ("E", leafdef["code"], None, 0x40, ("L", ("u32", depth)))
         for _ in range(depth):
             e = ("E", grp["code"], None, 0, ("GN", [e]))
@@ -415,7 +415,7 @@ def check_C02(chk, tier, seed):
     # depth sweep 1 .. lim + 2
     grp = [d for d in eng.dicts["g"].live() if d["ty"] == "grp" and d["vendor"] is None][0]
     leafdef = [d for d in eng.dicts["g"].live() if d["ty"] == "u32" and d["vendor"] is None][0]
-    for depth in range(1, (lim or 32) + 3):
+    for depth in range(1, min(lim or 32, 200) + 3):
         v = ("L", ("u32", depth))
         e = ("E", leafdef["code"], None, 0x40, v)
         for _ in range(depth):
